@@ -430,12 +430,16 @@ def value_case(ctx, case):
         if v_sent is None:
             return
         ctx.label('dressed_' + case['dress'])
+    import warnings
     try:
-        if case.get('traced'):
-            run_with_line_budget(lambda: _send(T, mode, v_sent, sink),
-                                 LINE_BUDGET)
-        else:
-            _send(T, mode, v_sent, sink)
+        with warnings.catch_warnings():
+            # (also in a process that escalates warnings to errors)
+            warnings.simplefilter('error')
+            if case.get('traced'):
+                run_with_line_budget(lambda: _send(T, mode, v_sent, sink),
+                                     LINE_BUDGET)
+            else:
+                _send(T, mode, v_sent, sink)
     except BudgetExceeded:
         ctx.fail('value', 'E2-terminates', case, 'line budget exceeded')
         return
@@ -474,7 +478,9 @@ def value_case(ctx, case):
                         else (b'', b'\xa5\x80\xff')):
             s = CountingStream(data + trailer)
             try:
-                got = _read(T, mode, s)
+                with warnings.catch_warnings():
+                    warnings.simplefilter('error')
+                    got = _read(T, mode, s)
             except Exception as e:
                 ctx.fail('value', 'D1-decode-raises', case, None, want,
                          exc=e)
